@@ -381,22 +381,39 @@ func unspec(format string, a ...any) error { return &ErrUnspecified{Why: fmt.Spr
 // Lookup resolves a dotted path on a row: objects are descended, a missing key (or a step through a
 // NULL) yields NULL.
 func Lookup(row any, path string) (any, error) {
-	cur := row
-	for _, seg := range strings.Split(path, ".") {
-		switch t := cur.(type) {
-		case nil:
-			return nil, nil
-		case map[string]any:
-			v, ok := t[seg]
-			if !ok {
-				return nil, nil
-			}
-			cur = v
-		default:
-			return nil, unspec("path %q steps through %T", path, cur)
-		}
+	return lookupSegs(row, strings.Split(path, "."), path)
+}
+
+// lookupSegs: a key descends an object; over an array the rest of the path is applied to every element
+// ("a.b descends objects and maps over arrays"); a missing key or a NULL on the way is NULL.
+func lookupSegs(cur any, segs []string, path string) (any, error) {
+	if len(segs) == 0 {
+		return cur, nil
 	}
-	return cur, nil
+	switch t := cur.(type) {
+	case nil:
+		return nil, nil
+	case map[string]any:
+		v, ok := t[segs[0]]
+		if !ok {
+			return nil, nil
+		}
+		return lookupSegs(v, segs[1:], path)
+	case []any:
+		out := make([]any, len(t))
+		for i, el := range t {
+			if _, ok := el.(map[string]any); !ok {
+				return nil, unspec("path %q steps through an array holding %T", path, el)
+			}
+			v, err := lookupSegs(el, segs, path)
+			if err != nil {
+				return nil, err
+			}
+			out[i] = v
+		}
+		return out, nil
+	}
+	return nil, unspec("path %q steps through %T", path, cur)
 }
 
 // CompareScalars orders two non-NULL scalars of the same kind. ok=false when kinds differ or the
@@ -502,6 +519,13 @@ func Eval(e *E, row map[string]any, env *Env) (any, error) {
 		r, err := Eval(e.A[1], row, env)
 		if err != nil {
 			return nil, err
+		}
+		for _, o := range []any{l, r} {
+			switch o.(type) {
+			case []any, map[string]any:
+				// arithmetic on an array or object is no "ordinary meaning" the statement fixes, whatever the other operand
+				return nil, unspec("arithmetic on %T and %T", l, r)
+			}
 		}
 		if l == nil || r == nil {
 			return nil, nil
